@@ -125,6 +125,8 @@ type dpCtx struct {
 	reindexed  bool   // the index was rebuilt from the packs after the crash
 	delRef     string // ref of the crashed removal
 	delBody    bool   // its body was zeroed
+	delHdr     bool   // its header was rewritten
+	delRow     bool   // its row was deleted
 	dup        map[string]bool
 }
 
@@ -173,10 +175,19 @@ func (o *dpOracle) signature(class, ref string, observed []byte) string {
 	if c.tornAppend && (packReader || c.reindexed) {
 		return "dp-append-after-torn-tail-pack-unparseable"
 	}
-	if c.label == "delete-crash" && c.delBody && ref == c.delRef &&
-		(class == "fetch-wrong-body" || class == "stream-wrong-body") &&
-		len(observed) == len(o.body[ref]) && allZero(observed) {
-		return "dp-delete-crash-zeroed-body-served"
+	if c.label == "delete-crash" && ref == c.delRef {
+		// the three steps of a removal (header rewrite, zeroing, row deletion) are not atomic and not synced
+		zeros := len(observed) == len(o.body[ref]) && allZero(observed)
+		switch {
+		case c.delBody && zeros && (class == "fetch-wrong-body" || class == "stream-wrong-body"):
+			// zeros served: through the row that is still there, or by the pack readers (header not rewritten)
+			return "dp-delete-crash-zeroed-body-served"
+		case c.delHdr && !c.delRow && (class == "acked-blob-not-streamed" ||
+			(c.reindexed && (class == "acked-blob-lost" || class == "acked-blob-not-enumerated"))):
+			// the row outlived the pack record: a duplicate receive was acknowledged on the strength of the
+			// row, but the pack says "deleted"
+			return "dp-delete-crash-row-outlives-pack-record"
+		}
 	}
 	if c.dup[ref] && (class == "removed-blob-streamed" || (c.reindexed && (class == "removed-blob-served" || class == "removed-blob-enumerated"))) {
 		// the pack readers (StreamBlobs, Reindex) find the older record of a blob that was appended twice
@@ -518,14 +529,14 @@ func (g *gen) scenarioAppendCrash(idx int) {
 		}
 		g.dpRead(oc)
 		// half of the points: rebuild the index right away; the others: go on working first
-		full := i%2 == 0 || r.Thorough()
+		full := i%2 == 0 || (r.Thorough() && total <= 90)
 		if full {
 			g.op("dp.save 1")
 			o2 := oc.snapshot()
 			g.dpReindex(o2, "fresh")
 			g.op("dp.restore 1")
 		}
-		if i%2 == 1 || r.Thorough() || pt.keep == total {
+		if i%2 == 1 || (r.Thorough() && total <= 90) || pt.keep == total {
 			g.continueAfterCrash(oc, x, rnd.Chance(60))
 		}
 	}
@@ -570,7 +581,7 @@ func (g *gen) scenarioDeleteCrash(idx int) {
 		oc := base.snapshot()
 		g.op(fmt.Sprintf("dp.crash d %d %d %d", b2i[hdr], b2i[body], b2i[row]))
 		oc.status[x.ref] = stMaybe
-		oc.ctx.label, oc.ctx.delRef, oc.ctx.delBody = "delete-crash", x.ref, body
+		oc.ctx.label, oc.ctx.delRef, oc.ctx.delBody, oc.ctx.delHdr, oc.ctx.delRow = "delete-crash", x.ref, body, hdr, row
 		r.Hit(fmt.Sprintf("crash:delete-h%d-b%d-r%d", b2i[hdr], b2i[body], b2i[row]))
 		r.Distinct("dp:" + g.op("dp.dump"))
 		g.dpRead(oc)
@@ -1050,6 +1061,8 @@ var (
 	witnessTornThenAppend = []string{"dp.init 0", "dp.sess r:" + fooRef + ":666f6f", "dp.crash a 5 0 0", "dp.sess r:" + barRef + ":626172",
 		"dp.reindex fresh", "dp.read " + barRef}
 	witnessDeleteZeroed = []string{"dp.init 0", "dp.sess r:" + fooRef + ":666f6f", "dp.sess d:" + fooRef, "dp.crash d 1 1 0", "dp.read " + fooRef}
+	witnessRowOutlives = []string{"dp.init 0", "dp.sess r:" + fooRef + ":666f6f", "dp.sess d:" + fooRef, "dp.crash d 1 0 0",
+		"dp.sess r:" + fooRef + ":666f6f", "dp.reindex fresh", "dp.read " + fooRef}
 	witnessDupResurrected = []string{"dp.init 0", "dp.sess r:" + fooRef + ":666f6f", "dp.crash a 52 0 0", "dp.sess r:" + fooRef + ":666f6f",
 		"dp.sess d:" + fooRef, "dp.reindex fresh", "dp.read " + fooRef}
 )
@@ -1061,6 +1074,8 @@ func (g *gen) probes() {
 	g.r.Probe("F-C03-2", o[len(o)-2] == "err" || !strings.Contains(o[len(o)-1], "F ok:3:626172 "), "torn header, restart, append, Reindex: "+o[len(o)-2]+" / "+o[len(o)-1])
 	_, o = probeOps(witnessDeleteZeroed)
 	g.r.Probe("F-C03-3", strings.Contains(o[len(o)-1], "F ok:3:000000 "), "crash between zeroing and row deletion: "+o[len(o)-1])
+	_, o = probeOps(witnessRowOutlives)
+	g.r.Probe("F-C03-5", o[len(o)-3] == "ok" && strings.Contains(o[len(o)-1], "F ne "), "row outlives the pack record, duplicate receive acknowledged, Reindex: "+o[len(o)-1])
 	_, o = probeOps(witnessDupResurrected)
 	g.r.Probe("F-C03-4", strings.Contains(o[len(o)-1], "F ok:3:666f6f "), "removed blob with an older duplicate record, Reindex: "+o[len(o)-1])
 }
@@ -1082,16 +1097,16 @@ func Run(r *hk.Run) {
 		}
 		return quick
 	}
-	for i := 0; i < q(10, 60); i++ {
+	for i := 0; i < q(10, 24); i++ {
 		g.scenarioAppendCrash(i)
 	}
-	for i := 0; i < q(5, 30); i++ {
+	for i := 0; i < q(5, 20); i++ {
 		g.scenarioDeleteCrash(i)
 	}
-	for i := 0; i < q(6, 40); i++ {
+	for i := 0; i < q(6, 30); i++ {
 		g.scenarioClean(i)
 	}
-	for i := 0; i < q(40, 400); i++ {
+	for i := 0; i < q(40, 300); i++ {
 		g.scenarioGarbage(i)
 	}
 	for i := 0; i < q(10, 60); i++ {
